@@ -267,6 +267,12 @@ def t2_d1_readers(ctx):
                             ok, why = (None if ok else ok), 'part_bounds = %s: relation to self.%s, the sequence _get_part indexes, not recognised' % (show(pb)[:60], store[3])
                 elif is_t(rv) and rv[1] == 'index' and rv[3] == sub_p and is_t(rv[2]) and rv[2][1] == 'attr' and rv[2][2] == me:
                     h = st.heap.get((me, rv[2][3]))
+                    # the object the reader serves is the constructor's argument itself (possibly loaded / wrapped), never a re-arranged view of it
+                    rearr = [x for x in subterms(h)] if h is not None else []
+                    if any((is_t(x) and x[1] == 'attr' and x[3] == 'T') or (is_t(x) and x[1] in ('call', 'm') and any(str(y).split('.')[-1] in ('transpose', 'swapaxes', 'reshape', 'flip', 'flipud', 'fliplr', 'moveaxis', 'rot90')
+                                                                                                         for y in x[2:3])) for x in rearr):
+                        ok, why = False, 'the stored object self.%s is %s: the argument is re-arranged (transposed / reshaped) before it is served, so rows and columns are not those of the given array' % (rv[2][3], show(h)[:70])
+                        continue
                     cands = [] if h is None else [T('list', C(0), T('index', T('attr', h, 'shape'), C(0))), T('list', C(0), T('attr', h, 'n_samples')),
                                                   T('list', C(0), T('call', 'len', C(0), h))]
                     if pb not in cands:
